@@ -44,6 +44,7 @@ type check struct {
 	lyTotal        int64
 	lyRefCache     map[string]string
 	listsOnly      bool
+	lyVars         []lyVarCase
 	bCases         []bCase
 	cUnits         []cUnit
 	dBlocks        [][]int
